@@ -50,7 +50,17 @@ class Ids:
                 and not force_rename and not re.search(r"_\d+_\Z", name):
             self.used.add(name.lower())
             return name, False
-        style = ch.n(4)
+        style = ch.n(5)
+        if style == 4 and name:
+            # a long identifier (tokens of 40+ characters)
+            cand = re.sub(r"[^0-9A-Za-z_]", "_", name)
+            if not cand[:1].isalpha():
+                cand = "n" + cand
+            cand = (cand + "_" + "long_identifier_" * 3)[:60 + ch.n(20)]
+            if LEGAL.match(cand) and cand.lower() not in self.used and not re.search(r"_\d+_\Z", cand):
+                self.used.add(cand.lower())
+                return cand, True
+            style = 0
         if style == 3 and name:
             # the sanitised form other writers use: illegal characters -> '_', '&' before a non-letter
             cand = re.sub(r"[^0-9A-Za-z_]", "_", name)
